@@ -319,7 +319,7 @@ Proof.
 Qed.
 
 Theorem read_vertices_ascii_written n gs : forall k (rest : list (list tok)),
-  Forall (group_good n) gs -> forallb ascii_ok gs = true -> vertex_props gs <> [] -> (k <= n)%nat ->
+  Forall (group_good n) gs -> forallb ascii_ok gs = true -> (n = 0%nat \/ vertex_props gs <> []) -> (k <= n)%nat ->
   read_vertices_ascii (layout false gs 0) (List.length (vertex_props gs))
     (map (fun i => flat_map (fun g => gtoks g i) gs) (seq (n - k) k) ++ rest) k
   = Ok (map (vrow gs) (seq (n - k) k), rest).
@@ -327,10 +327,11 @@ Proof.
   induction k as [|k IH]; intros rest Hg Ha Hne Hk.
   - cbn [seq map app read_vertices_ascii]. destruct rest; reflexivity.
   - cbn [seq map app read_vertices_ascii].
+    assert (Hne' : vertex_props gs <> []) by (destruct Hne as [Hn0|Hne']; [lia|exact Hne']).
     pose proof (line_length n gs (n - S k) Hg ltac:(lia)) as Ll.
     destruct (flat_map (fun g => gtoks g (n - S k)) gs) as [|t0 l0] eqn:El.
     { exfalso. destruct (vertex_props gs); [congruence|discriminate]. }
-    rewrite Ll. rewrite Nat.ltb_irrefl. rewrite <- El.
+    clear Hne'. rewrite Ll. rewrite Nat.ltb_irrefl. rewrite <- El.
     pose proof (read_row_ascii n (n - S k) gs [] [] Hg Ha ltac:(lia)) as R. cbn [app List.length] in R. rewrite app_nil_r in R.
     rewrite R. cbn [rbind]. replace (S (n - S k)) with (n - k)%nat by lia.
     rewrite IH by (try assumption; lia). reflexivity.
@@ -710,7 +711,7 @@ Proof.
 Qed.
 
 Theorem read_mesh_pointcloud_ascii gs m : w_topo m = TPoint ->
-  Forall (group_good (w_n m)) gs -> forallb ascii_ok gs = true -> vertex_props gs <> [] -> readers_ok false gs ->
+  Forall (group_good (w_n m)) gs -> forallb ascii_ok gs = true -> (w_n m = 0%nat \/ vertex_props gs <> []) -> readers_ok false gs ->
   read_mesh {| pf_header := header_lines ASCII (header_elems gs m);
                pf_body := BodyAscii (map (fun i => flat_map (fun g => gtoks g i) gs) (seq 0 (w_n m))) |}
   = Ok {| m_topo := TPoint; m_idx := iota (w_n m);
@@ -810,7 +811,7 @@ Qed.
 
 Theorem read_mesh_triangles_ascii gs m : w_topo m = TTriangle -> has_tex m = false ->
   (List.length (w_idx m) mod 3 = 0)%nat ->
-  Forall (group_good (w_n m)) gs -> forallb ascii_ok gs = true -> vertex_props gs <> [] -> readers_ok false gs ->
+  Forall (group_good (w_n m)) gs -> forallb ascii_ok gs = true -> (w_n m = 0%nat \/ vertex_props gs <> []) -> readers_ok false gs ->
   read_mesh {| pf_header := header_lines ASCII (header_elems gs m);
                pf_body := BodyAscii (map (fun i => flat_map (fun g => gtoks g i) gs) (seq 0 (w_n m))
                                      ++ map line_notex (tris (w_idx m))) |}
@@ -838,7 +839,7 @@ Qed.
 
 Theorem read_mesh_triangles_tex_ascii gs m fts : w_topo m = TTriangle -> has_tex m = true ->
   (List.length (w_idx m) mod 3 = 0)%nat -> map fst fts = tris (w_idx m) -> Forall (fun tu => List.length (snd tu) = 6%nat) fts ->
-  Forall (group_good (w_n m)) gs -> forallb ascii_ok gs = true -> vertex_props gs <> [] -> readers_ok false gs ->
+  Forall (group_good (w_n m)) gs -> forallb ascii_ok gs = true -> (w_n m = 0%nat \/ vertex_props gs <> []) -> readers_ok false gs ->
   read_mesh {| pf_header := header_lines ASCII (header_elems gs m);
                pf_body := BodyAscii (map (fun i => flat_map (fun g => gtoks g i) gs) (seq 0 (w_n m)) ++ map line_tex fts) |}
   = mesh_of TTriangle (zidx (w_idx m)) (flat_map (fun tu => pairs (map cvF (snd tu))) fts)
@@ -1238,4 +1239,303 @@ Proof.
   - rewrite layout_app. reflexivity.
   - intros g Hg. rewrite Forall_forall in Hr. apply props_fresh_reserved; [apply Hr, Hg|]. intros g'. apply pregs_names_reserved.
   - intros g Hg. rewrite Forall_forall in Hr. apply claims_layout_reserved; [apply Hr, Hg|]. intros g'. apply pregs_names_reserved.
+Qed.
+
+(* ================= the whole file in closed form ================= *)
+Definition uvf (m : wmesh) (t : nat * nat * nat) : list N := match face_uvs m t with Ok u => u | Err _ => [] end.
+Definition faces_of (m : wmesh) : list (nat * nat * nat) := match w_topo m with TTriangle => tris (w_idx m) | TPoint => [] end.
+Definition fts_of (m : wmesh) : list (nat * nat * nat * list N) := map (fun t => (t, uvf m t)) (faces_of m).
+Definition tex_ok (m : wmesh) : Prop :=
+  forall t, In t (faces_of m) -> exists u, face_uvs m t = Ok u /\ List.length u = 6%nat /\ Forall word32 u.
+Definition closed_body (f : fmt) (gs : list rgroup) (m : wmesh) : body :=
+  match f with
+  | ASCII => BodyAscii (map (fun i => flat_map (fun g => gtoks g i) gs) (seq 0 (w_n m)) ++
+                        (if has_tex m then map line_tex (fts_of m) else map line_notex (faces_of m)))
+  | _ => BodyBin (flat_map (fun i => flat_map (fun g => genc (enc_of f) g i) gs) (seq 0 (w_n m)) ++
+                  (if has_tex m then flat_map (rec_tex (enc_of f)) (fts_of m) else flat_map (rec_notex (enc_of f)) (faces_of m)))
+  end.
+
+Lemma vblock_eq e gs n :
+  flat_map (enc_words e) (map (fun i => flat_map (fun g => gwords g i) gs) (seq 0 n))
+  = flat_map (fun i => flat_map (fun g => genc e g i) gs) (seq 0 n).
+Proof. induction (seq 0 n) as [|i l IH]; [reflexivity|]. cbn [map flat_map]. rewrite IH, enc_words_flat. reflexivity. Qed.
+
+Lemma uvf_ok m t u : face_uvs m t = Ok u -> uvf m t = u.
+Proof. intros H. unfold uvf. rewrite H. reflexivity. Qed.
+
+Lemma faces_bin_closed e m : (has_tex m = true -> tex_ok m) ->
+  mapR (face_bin_rec e m) (faces_of m)
+  = Ok (if has_tex m then map (rec_tex e) (fts_of m) else map (rec_notex e) (faces_of m)).
+Proof.
+  intros Hx. destruct (has_tex m) eqn:E.
+  - unfold fts_of. rewrite map_map. apply mapR_ok. intros t Ht. destruct (Hx eq_refl t Ht) as (u & U & _).
+    rewrite (uvf_ok m t u U). apply face_bin_rec_tex; assumption.
+  - apply mapR_ok. intros t _. apply face_bin_rec_notex. exact E.
+Qed.
+Lemma faces_ascii_closed m : (has_tex m = true -> tex_ok m) ->
+  mapR (face_ascii_line m) (faces_of m)
+  = Ok (if has_tex m then map line_tex (fts_of m) else map line_notex (faces_of m)).
+Proof.
+  intros Hx. destruct (has_tex m) eqn:E.
+  - unfold fts_of. rewrite map_map. apply mapR_ok. intros t Ht. destruct (Hx eq_refl t Ht) as (u & U & _).
+    rewrite (uvf_ok m t u U). apply face_ascii_line_tex; assumption.
+  - apply mapR_ok. intros t _. apply face_ascii_line_notex. exact E.
+Qed.
+
+Theorem write_body_closed f gs m : Forall (group_good (w_n m)) gs -> (f = ASCII -> w_n m = 0%nat \/ gs <> []) ->
+  (w_topo m = TTriangle -> (List.length (w_idx m) mod 3 = 0)%nat) -> (has_tex m = true -> tex_ok m) ->
+  write_body f gs m = Ok (closed_body f gs m).
+Proof.
+  intros Hg Hne Hm Hx. unfold write_body. fold (faces_of m).
+  destruct f; cbn [closed_body enc_of].
+  - rewrite (write_vertices_ascii_ok (w_n m)) by assumption. cbn [rbind].
+    rewrite faces_ascii_closed by assumption. cbn [rbind]. f_equal. f_equal. f_equal.
+    destruct gs; [|reflexivity]. destruct (Hne eq_refl) as [->|H]; [reflexivity|congruence].
+  - rewrite (write_vertices_bin_ok (w_n m)) by assumption. cbn [rbind].
+    replace (match w_topo m with TTriangle => negb (Nat.eqb (List.length (w_idx m) mod 3) 0) | TPoint => false end) with false
+      by (destruct (w_topo m); [reflexivity|rewrite Hm by reflexivity; reflexivity]).
+    rewrite faces_bin_closed by assumption. cbn [rbind]. rewrite vblock_eq.
+    destruct (has_tex m); rewrite <- flat_map_concat_map; reflexivity.
+  - rewrite (write_vertices_bin_ok (w_n m)) by assumption. cbn [rbind].
+    replace (match w_topo m with TTriangle => negb (Nat.eqb (List.length (w_idx m) mod 3) 0) | TPoint => false end) with false
+      by (destruct (w_topo m); [reflexivity|rewrite Hm by reflexivity; reflexivity]).
+    rewrite faces_bin_closed by assumption. cbn [rbind]. rewrite vblock_eq.
+    destruct (has_tex m); rewrite <- flat_map_concat_map; reflexivity.
+Qed.
+
+(* ================= reading the closed-form file ================= *)
+Definition is_bin (f : fmt) : bool := match f with ASCII => false | _ => true end.
+Definition result_mesh (bin : bool) (gs : list rgroup) (m : wmesh) : result mesh :=
+  let attrs := update_mesh (layout bin gs 0) 0 (map (vrow gs) (seq 0 (w_n m))) [] in
+  match w_topo m with
+  | TPoint => Ok {| m_topo := TPoint; m_idx := iota (w_n m); m_attrs := attrs |}
+  | TTriangle =>
+      if has_tex m then mesh_of TTriangle (zidx (w_idx m)) (flat_map (fun tu => pairs (map cvF (snd tu))) (fts_of m)) attrs
+      else Ok {| m_topo := TTriangle; m_idx := zidx (w_idx m); m_attrs := attrs |}
+  end.
+
+Lemma fts_fst m : map fst (fts_of m) = faces_of m.
+Proof. unfold fts_of. rewrite map_map. cbn [fst]. apply map_id. Qed.
+
+Theorem read_closed f gs m :
+  Forall (group_good (w_n m)) gs -> readers_ok (is_bin f) gs ->
+  (f = ASCII -> forallb ascii_ok gs = true /\ (w_n m = 0%nat \/ vertex_props gs <> [])) ->
+  (w_topo m = TTriangle -> (List.length (w_idx m) mod 3 = 0)%nat /\ Forall tri_ok (tris (w_idx m))) ->
+  (has_tex m = true -> tex_ok m) ->
+  read_mesh {| pf_header := header_lines f (header_elems gs m); pf_body := closed_body f gs m |} = result_mesh (is_bin f) gs m.
+Proof.
+  intros Hg Hr Ha Ht Hx. unfold result_mesh, closed_body.
+  destruct (w_topo m) eqn:Et.
+  - (* point cloud *)
+    unfold fts_of, faces_of. rewrite Et. cbn [map flat_map]. 
+    destruct f; cbn [is_bin] in *.
+    + destruct (Ha eq_refl) as [A1 A2]. destruct (has_tex m); rewrite app_nil_r; apply read_mesh_pointcloud_ascii; assumption.
+    + destruct (has_tex m); rewrite app_nil_r; apply (read_mesh_pointcloud_bin BinLE); try assumption; discriminate.
+    + destruct (has_tex m); rewrite app_nil_r; apply (read_mesh_pointcloud_bin BinBE); try assumption; discriminate.
+  - destruct (Ht eq_refl) as [Hm Hi].
+    assert (Ef : faces_of m = tris (w_idx m)) by (unfold faces_of; rewrite Et; reflexivity).
+    destruct (has_tex m) eqn:Ex.
+    + assert (Hfst : map fst (fts_of m) = tris (w_idx m)) by (rewrite fts_fst; exact Ef).
+      assert (Hftu : Forall ftu_ok (fts_of m)).
+      { unfold fts_of. apply Forall_forall. intros tu Htu. apply in_map_iff in Htu. destruct Htu as (t & <- & Hin).
+        destruct (Hx eq_refl t Hin) as (u & U & L & W). rewrite (uvf_ok m t u U). split; [|split; assumption].
+        cbn [fst]. rewrite Forall_forall in Hi. apply Hi. rewrite <- Ef. exact Hin. }
+      destruct f; cbn [is_bin] in *.
+      * destruct (Ha eq_refl) as [A1 A2]. apply read_mesh_triangles_tex_ascii; try assumption.
+        apply Forall_forall. intros tu Htu. rewrite Forall_forall in Hftu. apply (Hftu tu Htu).
+      * apply (read_mesh_triangles_tex_bin BinLE); try assumption; discriminate.
+      * apply (read_mesh_triangles_tex_bin BinBE); try assumption; discriminate.
+    + rewrite Ef. destruct f; cbn [is_bin] in *.
+      * destruct (Ha eq_refl) as [A1 A2]. apply read_mesh_triangles_ascii; assumption.
+      * apply (read_mesh_triangles_bin BinLE); try assumption; discriminate.
+      * apply (read_mesh_triangles_bin BinBE); try assumption; discriminate.
+Qed.
+
+(* ================= user vector attributes: the scalar columns carry the same bytes / tokens ================= *)
+Lemma flat_map_map_comp {A B C} (f : B -> list C) (g : A -> B) l : flat_map f (map g l) = flat_map (fun x => f (g x)) l.
+Proof. induction l as [|x l IH]; [reflexivity|]. cbn [map flat_map]. rewrite IH. reflexivity. Qed.
+Lemma flat_map_single {A B} (f : A -> B) l : flat_map (fun x => [f x]) l = map f l.
+Proof. induction l as [|x l IH]; [reflexivity|]. cbn [map flat_map app]. rewrite IH. reflexivity. Qed.
+Lemma flat_map_ext_in {A B} (f g : A -> list B) l : (forall x, In x l -> f x = g x) -> flat_map f l = flat_map g l.
+Proof. induction l as [|x l IH]; intros H; [reflexivity|]. cbn [flat_map]. rewrite (H x (or_introl eq_refl)), IH; [reflexivity|]. intros y Hy. apply H. right. exact Hy. Qed.
+Lemma combine_seq_fst {A B} (h : nat -> B) k : forall a (names : list A), List.length names = k ->
+  map (fun p => h (fst p)) (combine (seq a k) names) = map h (seq a k).
+Proof. induction k as [|k IH]; intros a [|x names] H; try discriminate; [reflexivity|]. cbn [seq combine map fst]. rewrite IH by (cbn in H; lia). reflexivity. Qed.
+Lemma combine_seq_snd {A} k : forall a (names : list A), List.length names = k -> map snd (combine (seq a k) names) = names.
+Proof. induction k as [|k IH]; intros a [|x names] H; try discriminate; [reflexivity|]. cbn [seq combine map snd]. rewrite IH by (cbn in H; lia). reflexivity. Qed.
+
+Definition col_group (g : rgroup) (p : nat * string) : rgroup :=
+  {| rg_attr := snd p; rg_names := [snd p]; rg_ty := rg_ty g; rg_rows := map (fun r => [nth (fst p) r 0]) (rg_rows g) |}.
+Lemma split_group_cols g : split_group g = map (col_group g) (combine (seq 0 (List.length (rg_names g))) (rg_names g)).
+Proof. unfold split_group. apply map_ext. intros [j n]. reflexivity. Qed.
+
+Lemma split_props g : vertex_props (split_group g) = group_props g.
+Proof.
+  rewrite split_group_cols. unfold vertex_props. rewrite flat_map_map_comp.
+  change (fun x => group_props (col_group g x)) with (fun x : nat * string => [PScalar (rg_ty g) (snd x)]).
+  rewrite flat_map_single. rewrite <- (map_map snd (PScalar (rg_ty g))). rewrite combine_seq_snd by reflexivity. reflexivity.
+Qed.
+
+Lemma rowi_col n g p i : List.length (rg_rows g) = n -> (i < n)%nat -> rowi (col_group g p) i = [nth (fst p) (rowi g i) 0].
+Proof.
+  intros Hl Hi. unfold rowi. cbn [col_group rg_rows].
+  destruct (nth_error (rg_rows g) i) as [r|] eqn:E; [|apply nth_error_None in E; lia].
+  rewrite (nth_error_nth _ _ _ (map_nth_error (fun r => [nth (fst p) r 0]) _ _ E)). rewrite (nth_error_nth _ _ _ E). reflexivity.
+Qed.
+
+Lemma split_words n g i : group_good n g -> (i < n)%nat ->
+  flat_map (fun g' => gwords g' i) (split_group g) = gwords g i /\ flat_map (fun g' => gtoks g' i) (split_group g) = gtoks g i.
+Proof.
+  intros G Hi. destruct (rowi_good n g i G Hi) as [_ (Hl & _)]. destruct G as (_ & Hn & _).
+  rewrite split_group_cols, !flat_map_map_comp. unfold gwords, gtoks.
+  split.
+  - rewrite (flat_map_ext_in _ (fun p => [(rg_ty g, sw (rg_ty g) (nth (fst p) (rowi g i) 0))])).
+    2:{ intros p _. rewrite (rowi_col n) by assumption. reflexivity. }
+    rewrite flat_map_single. rewrite (combine_seq_fst (fun j => (rg_ty g, sw (rg_ty g) (nth j (rowi g i) 0)))) by reflexivity.
+    rewrite <- Hl. rewrite <- (map_map (fun j => nth j (rowi g i) 0) (fun w => (rg_ty g, sw (rg_ty g) w))). rewrite map_nth_seq. reflexivity.
+  - rewrite (flat_map_ext_in _ (fun p => [tk (rg_ty g) (nth (fst p) (rowi g i) 0)])).
+    2:{ intros p _. rewrite (rowi_col n) by assumption. reflexivity. }
+    rewrite flat_map_single. rewrite (combine_seq_fst (fun j => tk (rg_ty g) (nth j (rowi g i) 0))) by reflexivity.
+    rewrite <- Hl. rewrite <- (map_map (fun j => nth j (rowi g i) 0) (tk (rg_ty g))). rewrite map_nth_seq. reflexivity.
+Qed.
+
+Lemma split_good n g : group_good n g -> Forall (group_good n) (split_group g).
+Proof.
+  intros (Ht & Hn & Hr). rewrite split_group_cols. apply Forall_forall. intros g' Hg'. apply in_map_iff in Hg'.
+  destruct Hg' as (p & <- & Hp). split; [exact Ht|]. split; [cbn [col_group rg_rows]; rewrite map_length; exact Hn|].
+  cbn [col_group rg_rows]. apply Forall_forall. intros r' Hr'. apply in_map_iff in Hr'. destruct Hr' as (r & <- & Hin).
+  rewrite Forall_forall in Hr. destruct (Hr r Hin) as (Hl & Hw).
+  split; [reflexivity|]. constructor; [|constructor]. cbn [col_group rg_ty].
+  rewrite Forall_forall in Hw. apply Hw. apply nth_In. rewrite Hl.
+  destruct p as [j nm]. cbn [fst]. apply in_combine_l in Hp. apply in_seq in Hp. lia.
+Qed.
+
+(* lifted to a writer table: [rview_of] keeps recognised groups and splits the others *)
+Lemma rview_same n m ws : Forall (group_good n) (map (group_of m) ws) ->
+  vertex_props (flat_map (rview_of m) ws) = vertex_props (map (group_of m) ws) /\
+  Forall (group_good n) (flat_map (rview_of m) ws) /\
+  forall i, (i < n)%nat ->
+    flat_map (fun g => gwords g i) (flat_map (rview_of m) ws) = flat_map (fun g => gwords g i) (map (group_of m) ws) /\
+    flat_map (fun g => gtoks g i) (flat_map (rview_of m) ws) = flat_map (fun g => gtoks g i) (map (group_of m) ws).
+Proof.
+  induction ws as [|w ws IH]; intros Hg.
+  - split; [reflexivity|]. split; [constructor|]. intros i _. split; reflexivity.
+  - cbn [map] in Hg. apply Forall_cons_iff in Hg. destruct Hg as [G Hg]. destruct (IH Hg) as (P & Gd & Wd).
+    cbn [map flat_map]. change (rview_of m w) with (if is_default_writer w then [group_of m w] else split_group (group_of m w)).
+    destruct (is_default_writer w).
+    + cbn [app]. split; [|split].
+      * unfold vertex_props in *. cbn [flat_map]. rewrite P. reflexivity.
+      * constructor; assumption.
+      * intros i Hi. destruct (Wd i Hi) as [W1 W2]. cbn [flat_map]. rewrite W1, W2. split; reflexivity.
+    + split; [|split].
+      * rewrite vertex_props_app, split_props, P. reflexivity.
+      * apply Forall_app. split; [apply split_good; exact G|exact Gd].
+      * intros i Hi. destruct (Wd i Hi) as [W1 W2]. destruct (split_words n _ i G Hi) as [S1 S2].
+        rewrite !flat_map_app. cbn [flat_map]. rewrite W1, W2, S1, S2. split; reflexivity.
+Qed.
+
+Lemma closed_same f m gs gs' : vertex_props gs = vertex_props gs' ->
+  (forall i, (i < w_n m)%nat -> flat_map (fun g => gwords g i) gs = flat_map (fun g => gwords g i) gs' /\
+                                 flat_map (fun g => gtoks g i) gs = flat_map (fun g => gtoks g i) gs') ->
+  header_lines f (header_elems gs m) = header_lines f (header_elems gs' m) /\ closed_body f gs m = closed_body f gs' m.
+Proof.
+  intros P W. split; [unfold header_elems; rewrite P; reflexivity|].
+  assert (Eb : forall e, flat_map (fun i => flat_map (fun g => genc e g i) gs) (seq 0 (w_n m))
+                       = flat_map (fun i => flat_map (fun g => genc e g i) gs') (seq 0 (w_n m))).
+  { intros e. apply flat_map_ext_in. intros i Hi. apply in_seq in Hi. rewrite <- !enc_words_flat. destruct (W i ltac:(lia)) as [-> _]. reflexivity. }
+  assert (Ea : map (fun i => flat_map (fun g => gtoks g i) gs) (seq 0 (w_n m)) = map (fun i => flat_map (fun g => gtoks g i) gs') (seq 0 (w_n m))).
+  { apply map_ext_in. intros i Hi. apply in_seq in Hi. destruct (W i ltac:(lia)) as [_ ->]. reflexivity. }
+  unfold closed_body. destruct f; rewrite ?Ea, ?Eb; reflexivity.
+Qed.
+
+(* ================= [expected] is the mesh the reader model returns ================= *)
+Lemma rgroup_attr_ok n g : group_good n g -> rgroup_attr g = Ok (gattr g).
+Proof.
+  intros (_ & _ & Hr). unfold rgroup_attr, gattr.
+  rewrite (mapR_ok _ (map (vl (rg_ty g)))); [reflexivity|].
+  intros r Hin. rewrite Forall_forall in Hr. destruct (Hr r Hin) as (_ & Hw). apply mapR_ok. intros w Hw'.
+  rewrite Forall_forall in Hw. destruct (Hw w Hw') as (_ & v & V). unfold vl. rewrite V. reflexivity.
+Qed.
+
+Lemma pairs_app6 (u rest : list N) : List.length u = 6%nat -> pairs (map cvF (u ++ rest)) = pairs (map cvF u) ++ pairs (map cvF rest).
+Proof. intros H. destruct u as [|u0 [|u1 [|u2 [|u3 [|u4 [|u5 [|]]]]]]]; try discriminate. reflexivity. Qed.
+Lemma pairs_len6 (u : list N) : List.length u = 6%nat -> List.length (pairs (map cvF u)) = 3%nat.
+Proof. intros H. destruct u as [|u0 [|u1 [|u2 [|u3 [|u4 [|u5 [|]]]]]]]; try discriminate. reflexivity. Qed.
+
+Definition uvs_ok (m : wmesh) (ts : list (nat * nat * nat)) : Prop :=
+  forall t, In t ts -> exists u, face_uvs m t = Ok u /\ List.length u = 6%nat /\ Forall word32 u.
+Lemma uv_len m ts : uvs_ok m ts ->
+  List.length (flat_map (fun tu => pairs (map cvF (snd tu))) (map (fun t => (t, uvf m t)) ts)) = (3 * List.length ts)%nat.
+Proof.
+  induction ts as [|t ts IH]; intros Hx; [reflexivity|]. cbn [map flat_map snd List.length]. rewrite app_length.
+  destruct (Hx t (or_introl eq_refl)) as (u & U & L & _). rewrite (uvf_ok m t u U), (pairs_len6 u L).
+  rewrite IH by (intros t' Ht'; apply Hx; right; exact Ht'). lia.
+Qed.
+Lemma uv_concat m ts : uvs_ok m ts ->
+  pairs (map cvF (List.concat (map (uvf m) ts))) = flat_map (fun tu => pairs (map cvF (snd tu))) (map (fun t => (t, uvf m t)) ts).
+Proof.
+  induction ts as [|t ts IH]; intros Hx; [reflexivity|]. cbn [map List.concat flat_map snd].
+  destruct (Hx t (or_introl eq_refl)) as (u & U & L & _). rewrite (uvf_ok m t u U). rewrite (pairs_app6 u _ L).
+  rewrite IH by (intros t' Ht'; apply Hx; right; exact Ht'). reflexivity.
+Qed.
+Lemma tri_flat_len (l : list (nat * nat * nat)) : List.length (flat_map (fun '(a, b, c) => [a; b; c]) l) = (3 * List.length l)%nat.
+Proof. induction l as [|[[a b] c] l IH]; [reflexivity|]. cbn [flat_map List.length app]. rewrite IH. lia. Qed.
+
+Theorem expected_result o m bin : let gs := rview o m in
+  Forall (group_good (w_n m)) gs -> keys_ok [] gs = true -> (w_n m = 0%nat -> gs = []) ->
+  (w_topo m = TTriangle -> (List.length (w_idx m) mod 3 = 0)%nat) -> (has_tex m = true -> tex_ok m) ->
+  expected o m = result_mesh bin gs m.
+Proof.
+  intros gs Hg Hk H0 Hm Hx. unfold expected, result_mesh. fold gs.
+  rewrite (mapR_ok _ gattr) by (intros g Hin; rewrite Forall_forall in Hg; apply (rgroup_attr_ok (w_n m)), Hg, Hin).
+  cbn [rbind].
+  assert (Ea : update_mesh (layout bin gs 0) 0 (map (vrow gs) (seq 0 (w_n m))) [] = map gattr gs).
+  { destruct (w_n m) as [|n'] eqn:En.
+    - rewrite (H0 eq_refl). reflexivity.
+    - apply attrs_of_layout; [lia| |exact Hk]. eapply Forall_impl; [|exact Hg]. intros g (_ & L & _). exact L. }
+  rewrite Ea. destruct (w_topo m) eqn:Et; [reflexivity|].
+  destruct (has_tex m) eqn:Ex; cbn [andb]; [|reflexivity].
+  specialize (Hm eq_refl). specialize (Hx eq_refl).
+  destruct (tris_spec (List.length (w_idx m)) (w_idx m) (le_n _) Hm) as [Ef El].
+  assert (Efa : faces_of m = tris (w_idx m)) by (unfold faces_of; rewrite Et; reflexivity).
+  unfold nprims. rewrite Et, <- El.
+  assert (Hu : uvs_ok m (tris (w_idx m))) by (intros t Ht; apply Hx; rewrite Efa; exact Ht).
+  assert (Lu : List.length (flat_map (fun tu => pairs (map cvF (snd tu))) (fts_of m)) = (3 * List.length (tris (w_idx m)))%nat)
+    by (unfold fts_of; rewrite Efa; apply uv_len, Hu).
+  assert (Li : List.length (zidx (w_idx m)) = (3 * List.length (tris (w_idx m)))%nat)
+    by (unfold zidx; rewrite map_length; rewrite <- Ef at 1; apply tri_flat_len).
+  unfold mesh_of. rewrite Lu, Li.
+  destruct (List.length (tris (w_idx m))) as [|k] eqn:Ek.
+  - cbn [Nat.eqb negb Nat.mul]. reflexivity.
+  - replace (negb (Nat.eqb (S k) 0)) with true by reflexivity. replace (negb (Nat.eqb (3 * S k) 0)) with true by (cbn; reflexivity).
+    rewrite Nat.eqb_refl. cbn [andb].
+    rewrite (mapR_ok _ (uvf m)).
+    2:{ intros t Ht. destruct (Hx t ltac:(rewrite Efa; exact Ht)) as (u & U & _). rewrite (uvf_ok m t u U). exact U. }
+    cbn [rbind].
+    assert (Eu : pairs (map cvF (List.concat (map (uvf m) (tris (w_idx m))))) = flat_map (fun tu => pairs (map cvF (snd tu))) (fts_of m))
+      by (unfold fts_of; rewrite Efa; apply uv_concat, Hu).
+    rewrite Eu. reflexivity.
+Qed.
+
+(* ================= the whole-file statement, for any writer table whose readers are the laid-out ones ================= *)
+Theorem write_read_expected o f m :
+  let gw := map (group_of m) (effective_writers o m) in
+  let gr := rview o m in
+  Forall (group_good (w_n m)) gw -> readers_ok (is_bin f) gr -> keys_ok [] gr = true ->
+  (w_n m = 0%nat -> effective_writers o m = []) ->
+  (f = ASCII -> forallb ascii_ok gr = true /\ (w_n m = 0%nat \/ vertex_props gr <> [])) ->
+  (w_topo m = TTriangle -> (List.length (w_idx m) mod 3 = 0)%nat /\ Forall tri_ok (tris (w_idx m))) ->
+  (has_tex m = true -> tex_ok m) ->
+  exists file, write o f m = Ok file /\ read_mesh file = expected o m.
+Proof.
+  intros gw gr Hg Hr Hk H0 Ha Ht Hx.
+  destruct (rview_same (w_n m) m (effective_writers o m) Hg) as (P & Gd & Wd). fold gw in P, Wd. unfold rview in gr. fold gr in P, Gd, Wd.
+  destruct (closed_same f m gr gw P Wd) as [Eh Eb].
+  exists {| pf_header := header_lines f (header_elems gw m); pf_body := closed_body f gw m |}. split.
+  - unfold write. fold gw. rewrite write_body_closed; [reflexivity|exact Hg| |intros T; apply (Ht T)|exact Hx].
+    intros ->. destruct (Ha eq_refl) as [_ [E|E]]; [left; exact E|right]. intros Hnil. apply E. rewrite P, Hnil. reflexivity.
+  - rewrite <- Eh, <- Eb. rewrite read_closed; try assumption.
+    symmetry. apply (expected_result o m (is_bin f)); try assumption.
+    + intros E0. unfold rview. rewrite (H0 E0). reflexivity.
+    + intros T. apply (Ht T).
 Qed.
